@@ -75,8 +75,28 @@ def family():
     return _FAMILY
 
 
+_STRICT = None
+
+
+def strict():
+    """further hand-written "usual stricter variants" of the bundled schemas.  They are *not* part of the kernel-checked
+    family (no closed corollaries are generated for them); the totality search of C11 runs on them as it does on the family,
+    so that the choice of family members is not what keeps the sentence "never raises" true"""
+    global _STRICT
+    if _STRICT is None:
+        out = []
+        n = _nodes(list_schema)
+        n["list_item"] = {**n["list_item"], "content": "paragraph (ordered_list | bullet_list)?"}
+        out.append(SchemaInfo(Schema({"nodes": n, "marks": _marks(list_schema)}), "strict-list"))
+        n = _nodes(list_schema)
+        n["doc"] = {"content": "heading paragraph+ block*"}
+        out.append(SchemaInfo(Schema({"nodes": n, "marks": _marks(list_schema)}), "strict-doc"))
+        _STRICT = out
+    return _STRICT
+
+
 def by_name(name):
-    for s in family() + extra():
+    for s in family() + extra() + strict():
         if s.name == name:
             return s
     raise KeyError(name)
